@@ -240,7 +240,7 @@ def run(tier, seed):
     # 3a'. every catalogue entry about a certificate outside its validity period (alone, and together with whatever else is wrong or remarkable about the chain: unrecognised
     #      extensions, a path-length violation, a re-dated copy of the root inside x5c, remarkable dates on other certificates, an AKI without key identifier)
     from harness import authcat
-    timed = [n for n in regcat.CHAIN_FAULTS if any(w in n for w in ("expired", "not-yet-valid", "valid-until", "valid-since", "redated"))]
+    timed = [n for n in regcat.CHAIN_FAULTS if any(w in n for w in ("expired", "not-yet-valid", "valid-until", "valid-since", "redated", "out-of-date"))]
     for fmt in ("packed", "tpm", "apple", "android-key", "android-safetynet", "fido-u2f"):
         for name in timed:
             if fmt == "fido-u2f" and ("intermediate" in name or name in regcat.MULTI_CERT_FAULTS):
